@@ -50,7 +50,7 @@ func c17(c *Ctx) {
 			}
 			c.requireCross(site(srt[0])+" after-init", srt[0], okEdges(ini[0]), "ok(dag.Init)")
 			c.R.Check(cfgx.Receiver(srt[0]) == cfgx.Receiver(ini[0]), site(srt[0])+" same-dag", c.pos(srt[0].Pos()), "Sort runs on the DAG that was initialised from the lock", "the DAG sorted is not the one initialised from the lock")
-			c.R.Check(flow.Default.Any(cfgx.CallArgs(ini[0])[0], func(v ssa.Value) bool { _, p, _ := flow.AccessPath(v); return p == "Packages" }), site(ini[0])+" from-lock", c.pos(ini[0].Pos()), "the DAG is built from lock.Packages", "the DAG is not built from the lock's packages")
+			c.R.Check(flow.Default.Any(cfgx.CallArgs(ini[0])[0], func(v ssa.Value) bool { _, p, _ := flow.AccessPathC(v); return p == "Packages" }), site(ini[0])+" from-lock", c.pos(ini[0].Pos()), "the DAG is built from lock.Packages", "the DAG is not built from the lock's packages")
 		}
 	}
 
@@ -94,7 +94,7 @@ func c17(c *Ctx) {
 			c.R.Unknown(load.FuncName(inst)+": Check", c.pos(inst.Pos()), "expected one Check and one NewConstraint")
 		} else {
 			t, _ := cfgx.CallCondEdges(chk[0])
-			_, p, _ := flow.AccessPath(nc[0].Common().Args[0])
+			_, p, _ := flow.AccessPathC(nc[0].Common().Args[0])
 			c.R.Check(p == "Constraints" && flow.Default.Any(cfgx.Receiver(chk[0]), func(v ssa.Value) bool { return v == cfgx.TupleResult(nc[0], 0) }), site(chk[0])+" declared-constraint", c.pos(chk[0].Pos()), "checks against the dependency's declared constraint", "the constraint checked is not the dependency's declared constraint")
 			// every return value: "" | digest.String() | phi whose non-empty leaves are v.Original() assigned on the Check-true edge
 			for _, b := range inst.Blocks {
@@ -158,7 +158,7 @@ func c17(c *Ctx) {
 			for _, b := range upd.Blocks {
 				for _, in := range b.Instrs {
 					if ld, ok := in.(*ssa.UnOp); ok && ld.Op == token.MUL {
-						if _, p, okp := flow.AccessPath(ld); okp && p == "downgradesEnabled" {
+						if _, p, okp := flow.AccessPathC(ld); okp && p == "downgradesEnabled" {
 							t, _ := cfgx.CondEdges(ld)
 							dgT = append(dgT, t...)
 						}
